@@ -143,7 +143,7 @@ pub proof fn lemma_part_new(ss: Seq<StreamEntry>, ss2: Seq<StreamEntry>, fs: Seq
 //@   sig #[verifier::loop_isolation(false)] #[verifier::allow_complex_invariants] pub fn partition_inputs(mut file_msgs: VxFileIter, mut input_file_streams: Vec<StreamEntry>) -> (r: Vec<StreamEntry>)
 //@   tail `input_file_streams`
 //@   sub R13 `for fm in file_msgs {` => `loop { let fm = match file_msgs.next() { Some(vx_f) => vx_f, None => break }; let ghost ss_b = input_file_streams@; let ghost f_k = fm; proof { assert(fm == fs0[k]); assert(fs0.skip(k).skip(1) =~= fs0.skip(k + 1)); }`
-//@   sub R11 `input_file_streams .iter_mut() .find(|e| e.0 == fm.1.ecus_seen)` => `vx_find_stream(&mut input_file_streams, &fm.1.ecus_seen)`
+//@   sub R11 `_id_ .iter_mut() .find(|_id_| _id_.0 == __)` => `vx_find_stream(&mut $1, &$4)`
 //@   spec
 //@|    requires
 //@|        input_file_streams@.len() == 0,
